@@ -322,6 +322,47 @@ class Bound(V):
         return '<bound %s>' % self.func.name
 
 
+class Aff(V):
+    """Affine form  coeff * x + const  in one variable with exact rational coefficients.
+    kind: 'num' (a number), 'dt' (a date-time as seconds since 1970-01-01), 'td' (a duration in seconds)."""
+
+    def __init__(self, coeff, const, kind='num', var='x'):
+        from fractions import Fraction
+        self.coeff = Fraction(coeff)
+        self.const = Fraction(const)
+        self.kind = kind
+        self.var = var
+
+    @property
+    def tag(self):
+        return {'num': 'float', 'dt': 'datetime', 'td': 'timedelta'}[self.kind]
+
+    def is_const(self):
+        return self.coeff == 0
+
+    def key(self):
+        return ('aff', self.kind, self.coeff, self.const, self.var)
+
+    def __repr__(self):
+        return '%s[%s*%s%+g]' % (self.kind, self.coeff, self.var, float(self.const)) if self.coeff else '%s[%s]' % (self.kind, self.const)
+
+
+class AffCmp(V):
+    """Subject of a decision:  coeff*x + const  <op>  0."""
+    tag = 'bool'
+
+    def __init__(self, op, coeff, const):
+        self.op = op
+        self.coeff = coeff
+        self.const = const
+
+    def key(self):
+        return ('affcmp', self.op, self.coeff, self.const)
+
+    def __repr__(self):
+        return '%s*x%+g %s 0' % (self.coeff, float(self.const), self.op)
+
+
 class RegexV(V):
     tag = 'regex'
 
